@@ -144,6 +144,7 @@ def run(res: Results, idx: Index, tier: str) -> None:
     rule_f(res, idx, tier)
     rule_g(res, idx)
     rule_h(res, idx)
+    rule_j(res, idx)
     if not getattr(res, "_nested_xref", False):
         # a memo that forgets a parameter ignores that argument on every later call (C14 R-C14g)
         from . import c14
@@ -549,3 +550,114 @@ def rule_h(res: Results, idx: Index) -> None:
             res.violation("R-C19h", f"{m.rel}:{b.lineno}", key, f"`{nm}` is read as `{src(a.value, 40)}` at line {a.lineno} ({fa.qualname if fa else '<module>'}) and as `{src(b.value, 40)}` at line {b.lineno} ({fb.qualname if fb else '<module>'}): "
                           "the two places disagree on the operand's layout, so a value filled in for an omitted argument means something else where it is consumed", "<module>")
     res.analysed["shape_role_names"] = n
+
+
+# ---------------------------------------------------------------------------------------------- R-C19j
+def _pad_reference(pw, rank):
+    """jnp.pad's reading of pad_width (jax._src.numpy.lax_numpy._broadcast_to_pairs): shapes (), (1,), (2,), (1,2), (rank,2)."""
+    isint = lambda v: isinstance(v, int) and not isinstance(v, bool)
+    if isint(pw):
+        return tuple((pw, pw) for _ in range(rank))
+    t = tuple(pw)
+    if len(t) == 1 and isint(t[0]):
+        return tuple((t[0], t[0]) for _ in range(rank))
+    if len(t) == 2 and all(isint(v) for v in t):
+        return tuple((t[0], t[1]) for _ in range(rank))
+    if len(t) == 1 and not isint(t[0]) and len(tuple(t[0])) == 2:
+        return tuple(tuple(t[0]) for _ in range(rank))
+    if len(t) == rank and all(not isint(v) and len(tuple(v)) == 2 for v in t):
+        return tuple(tuple(v) for v in t)
+    return None     # the library rejects the form: not an instance
+
+
+def _pad_domain():
+    for rank in (1, 2, 3, 4):
+        yield 2, rank
+        yield (3,), rank
+        yield (1, 2), rank
+        yield [1, 2], rank
+        yield ((1, 2),), rank
+        yield tuple((k + 1, k + 5) for k in range(rank)), rank
+        yield [list((k + 2, k + 7)) for k in range(rank)], rank
+
+
+ARG_NORMALISERS = [
+    # (module, function, domain, reference, what)
+    ("jax2onnx/plugins/jax/numpy/pad.py", "_normalize_pad_width", _pad_domain, _pad_reference, "jnp.pad pad_width"),
+]
+
+
+def rule_j(res: Results, idx: Index) -> None:
+    """Pure argument normalisers are evaluated (finite-domain evaluator over the syntax tree, nothing is imported) on every
+    documented form of the argument for ranks 1..4.  The normaliser may refuse a form (raise: the substitute then falls
+    back to the library or the export fails loudly) but a form it accepts has to be read the way the library reads it."""
+    from ..symeval import EvalRaise, Evaluator, Unsupported
+    res.rule("R-C19j", "argument normalisers read every documented argument form the way the library does, or refuse it (finite-domain evaluation, ranks 1..4)", floor=20)
+    n = 0
+    for rel, fn, dom, ref, what in ARG_NORMALISERS:
+        f = idx.find_func(rel, fn)
+        if f is None:
+            raise AnalysisError(f"{rel}::{fn} not found (R-C19j table is stale)")
+        for arg, rank in dom():
+            want = ref(arg, rank)
+            if want is None:
+                continue
+            n += 1
+            key = f"{rel}::{fn}::{what}::{arg!r}@rank{rank}"
+            site = f"{rel}:{f.node.lineno}"
+            try:
+                got = Evaluator(idx, {}).call(f, [arg, rank])
+            except EvalRaise as e:
+                res.ok("R-C19j", site, key, f"refused ({getattr(e, 'name', 'error')})", f.qualname)
+                continue
+            except Unsupported as e:
+                res.unresolved("R-C19j", site, key, f"not evaluable: {e}", f.qualname)
+                continue
+            except Exception as e:  # evaluator limitation, never a verdict
+                res.unresolved("R-C19j", site, key, f"not evaluable: {type(e).__name__}: {e}", f.qualname)
+                continue
+            try:
+                norm = tuple(tuple(int(v) for v in p) for p in got)
+            except Exception:
+                res.unresolved("R-C19j", site, key, f"result {got!r} is not a tuple of pairs", f.qualname)
+                continue
+            if norm == want:
+                res.ok("R-C19j", site, key, f"{arg!r} -> {norm}", f.qualname)
+            else:
+                res.violation("R-C19j", site, key, f"{what}={arg!r} on a rank-{rank} operand is read as {norm}; the library reads it as {want}: the argument is accepted and silently re-interpreted", f.qualname)
+    # the single-axis family: `_normalize_axis(axis, rank)` / `_canonical_axis(axis, rank)` siblings must all map an in-range
+    # axis to axis mod rank (out-of-range axes are rejected by the library itself: not instances)
+    n_ax = 0
+    for m in idx.product_modules():
+        if "/plugins/" not in m.rel:
+            continue
+        for fi in m.funcs.values():
+            if fi.name not in ("_normalize_axis", "_canonical_axis") or len(fi.node.args.args) != 2:
+                continue
+            n_ax += 1
+            key = f"{m.rel}::{fi.qualname}::axis-normaliser"
+            bad = None
+            unres = None
+            for rank in (1, 2, 3, 4):
+                for ax in range(-rank, rank):
+                    try:
+                        got = Evaluator(idx, {}).call(fi, [ax, rank])
+                    except EvalRaise:
+                        bad = bad or (ax, rank, "raises")
+                        continue
+                    except Exception as e:
+                        unres = unres or f"{type(e).__name__}: {e}"
+                        continue
+                    if got != ax % rank:
+                        bad = bad or (ax, rank, repr(got))
+            n += 1
+            if bad:
+                res.violation("R-C19j", fi.site, key, f"{fi.name}({bad[0]}, {bad[1]}) gives {bad[2]}; the library reads axis {bad[0]} of a rank-{bad[1]} operand as {bad[0] % bad[1]}", fi.qualname)
+            elif unres:
+                res.unresolved("R-C19j", fi.site, key, f"not evaluable: {unres}", fi.qualname)
+            else:
+                res.ok("R-C19j", fi.site, key, "in-range axes map to axis mod rank for ranks 1..4", fi.qualname)
+    res.analysed["normaliser_evaluations"] = n
+    res.analysed["axis_normalisers"] = n_ax
+    if n_ax < 8:
+        raise AnalysisError(f"only {n_ax} single-axis normalisers found (expected >= 8)")
